@@ -43,6 +43,10 @@ type c20Case struct {
 	// QuotedRcpts: the recipients' local parts hold a blank ("r0 m1"@rcpt.example): on the wire they are quoted, the
 	// Msg - and the SendError that names the refused ones - knows them as mailboxes (r0 m1@rcpt.example)
 	QuotedRcpts bool `json:"quoted_recipients,omitempty"`
+	// Cleanup (Pos MAIL / RCPT / DATA, slot = last message of the batch): the RSET with which the client abandons the
+	// refused transaction fails as well - "neg" = a negative reply of the other class with an enhanced code of its own,
+	// "drop" = the server hangs up. The verdict on the message is still the reply that refused its command.
+	Cleanup string `json:"cleanup,omitempty"`
 }
 
 func (c *c20Case) rcptMailbox(j, i int) string {
@@ -130,10 +134,12 @@ func runC20Case(r *ev.Run, c c20Case) {
 	}
 	var mu sync.Mutex
 	lastCode := 0
+	cleanupSeen := 0
 	rejectedBy := map[int][]string{}
 	newCfg := func(int) *refsmtp.Config {
 		cur := -1
 		delivered := -1
+		refused := -1
 		return &refsmtp.Config{
 			AllowUTF8: true,
 			TLS:       c20ServerTLS(c),
@@ -156,6 +162,7 @@ func runC20Case(r *ev.Run, c c20Case) {
 				defer mu.Unlock()
 				neg := func(code int) refsmtp.Action {
 					lastCode = code
+					refused = cur
 					return refsmtp.Action{Kind: refsmtp.Reply, Code: code, Text: text}
 				}
 				switch st.Verb {
@@ -196,6 +203,18 @@ func runC20Case(r *ev.Run, c c20Case) {
 						return neg(c.Code)
 					}
 				case "RSET":
+					if c.Cleanup != "" && refused == cur && inSlots(cur) {
+						refused = -1
+						cleanupSeen++
+						if c.Cleanup == "drop" {
+							return refsmtp.Action{Kind: refsmtp.Drop}
+						}
+						oc := 451
+						if c.Code/100 == 4 {
+							oc = 554
+						}
+						return refsmtp.Action{Kind: refsmtp.Reply, Code: oc, Text: fmt.Sprintf("%d.6.%d clean-up refused", oc/100, 1+c.Code%5)}
+					}
 					// only the RSET that follows the delivery of the slot message
 					if c.Pos == "RSET" && delivered == cur && inSlots(cur) {
 						delivered = -1
@@ -231,6 +250,16 @@ func runC20Case(r *ev.Run, c c20Case) {
 		return
 	}
 	r.Count("negative_replies_sent", 1)
+	if c.Cleanup != "" {
+		mu.Lock()
+		cs := cleanupSeen
+		mu.Unlock()
+		if cs == 0 {
+			r.Count("cleanup_rset_never_sent", 1)
+		} else {
+			r.Count("failed_cleanup_rsets:"+c.Cleanup, 1)
+		}
+	}
 	where := c.Pos + ":" + c.TextKind
 	failed := 0
 	for i, m := range msgs {
@@ -335,7 +364,7 @@ func runC20Case(r *ev.Run, c c20Case) {
 
 func runC20(r *ev.Run, rep *ev.ReplayDoc) ev.Summary {
 	sum := ev.Summary{
-		Rule: "every reply code 400-599 x reply text kind {leading enhanced code, none, enhanced-code-like token elsewhere (IP address, version), multi-line, mid-line} x position {MAIL, RCPT (every non-empty subset of up to 3 recipients, last rejection with its own code), DATA, end-of-data, RSET} x ENHANCEDSTATUSCODES advertised or not (on plain sessions and after STARTTLS, where the EHLO reply before the handshake may say the opposite) x batches of 1-3 fresh messages with the fault in each slot, or the same fault in several messages of the batch, x Send/DialAndSend. quick: every code at every position once with rotating other dimensions; thorough: the full cross product. non-trivial: all; distinct by case",
+		Rule: "every reply code 400-599 x reply text kind {leading enhanced code, none, enhanced-code-like token elsewhere (IP address, version), multi-line, mid-line} x position {MAIL, RCPT (every non-empty subset of up to 3 recipients, last rejection with its own code), DATA, end-of-data, RSET} x ENHANCEDSTATUSCODES advertised or not (on plain sessions and after STARTTLS, where the EHLO reply before the handshake may say the opposite) x batches of 1-3 fresh messages with the fault in each slot, or the same fault in several messages of the batch, x Send/DialAndSend; for MAIL / RCPT / DATA also with the clean-up RSET failing (negative reply of the other class, or the server hanging up). quick: every code at every position once with rotating other dimensions; thorough: the full cross product. non-trivial: all; distinct by case",
 		Assumptions: []string{
 			"the recipient list is read from the error text (\"affected recipient(s): ...\"), the only place the API exposes it",
 			"RSET position = the RSET after the slot message's successful end-of-data",
@@ -378,6 +407,11 @@ func runC20(r *ev.Run, rep *ev.ReplayDoc) ev.Summary {
 					}
 					c.QuotedRcpts = n%4 == 2
 					cases = append(cases, c)
+					if (pos == "MAIL" || pos == "RCPT" || pos == "DATA") && n%3 == 0 {
+						c.Cleanup = []string{"neg", "drop"}[(n/3)%2]
+						c.Slot, c.SlotMask, c.Retry = c.Batch-1, 0, false
+						cases = append(cases, c)
+					}
 				}
 			}
 		}
@@ -408,6 +442,11 @@ func runC20(r *ev.Run, rep *ev.ReplayDoc) ev.Summary {
 							}
 							c.QuotedRcpts = n%4 == 2
 							cases = append(cases, c)
+							if pos == "MAIL" || pos == "RCPT" || pos == "DATA" {
+								c.Cleanup = []string{"neg", "drop"}[n%2]
+								c.Slot, c.SlotMask, c.Retry = c.Batch-1, 0, false
+								cases = append(cases, c)
+							}
 						}
 					}
 				}
